@@ -64,7 +64,7 @@ class Mon:
         ctx = self.ctx
         ctx.ev(cls)
         abbr = '+'.join(k + G.write_values(v, imp) for k, v, imp in props)
-        cfg = {'type': 'stylesheet', 'syntax': syntax, 'options': dict(opts)}
+        cfg = {'type': 'stylesheet', 'syntax': syntax, 'options': dict(opts), 'snippets': dict(G.USER_SNIPPETS)}
         self.n += 1
         if self.n % 400:
             cfg['cache'] = self.caches.setdefault((syntax, repr(sorted(opts.items(), key=repr))), {})
